@@ -178,7 +178,20 @@ def scenario_from_model(p, m):
     pythia_called = any(e[0] == 'pythia' for e in run.events)
     raised = getattr(run, 'pythia_raised', False)
     n_setup_suggest = 0   # setup SuggestTrials calls are served from the pool and never reach Pythia
-    policy = {'suggest': [{'raise': 'RuntimeError'}] if raised else [{'deliver': n_s}]}
+    if raised:
+        # pick a concrete exception class consistent with the path's decisions about the symbolic class
+        dec = {k[0]: v for k, v in getattr(getattr(run, 'pythia_exc', None), 'decided', {}).items()}
+        if dec.get('RuntimeError'):
+            first = {'raise': 'RuntimeError', 'where': 'suggest'}
+        elif dec.get('grpc.RpcError') or dec.get('RpcError'):
+            first = {'raise': 'RuntimeError', 'where': 'suggest', 'note': 'RpcError needs a remote Pythia; local stand-in'}
+        else:
+            # not a RuntimeError: raised while the policy is built (PythiaServicer wraps only policy.suggest in RuntimeError)
+            cands = [c for c in ('ValueError', 'KeyError', 'TypeError', 'ImportError', 'AttributeError') if not dec.get(c, True) is False]
+            first = {'raise': (cands or ['ValueError'])[0], 'where': 'factory'}
+        policy = {'suggest': [first, {'deliver': '+0'}]}
+    else:
+        policy = {'suggest': [{'deliver': n_s}]}
     steps.append({'rpc': 'snapshot'})
     steps.append({'rpc': 'SuggestTrials', 'count': count, 'client': client, 'under_test': True})
     steps.append({'rpc': 'snapshot'})
